@@ -17,6 +17,16 @@ def live_cfg(threads, scen, defects=()):
             % (", ".join(map(str, threads)), scen, tla_value(set(defects))))
 
 
+def slots_cfg(threads, scen, defects=(), maxslots=4):
+    return ("INIT Init\nNEXT Next\nCONSTANTS Threads = {%s}\n Scenarios <- %s\n Defects = %s\n MaxSlots = %d\n%sCHECK_DEADLOCK FALSE\n"
+            % (", ".join(map(str, threads)), scen, tla_value(set(defects)), maxslots,
+               "".join("INVARIANT %s\n" % i for i in ("Ledger", "SlotOnePlace", "FreeSlotsEmpty", "QueuedSlotsFull", "EventOnePlace", "AtRest", "SlotsBounded", "NoDeadlock"))))
+
+
+SLOT_DEFECTS = [{"module": "ConcSlotsMC", "cfg": slots_cfg([1, 2], sc, defects=[d]), "defect": d}
+                for d, sc in (("no_recheck_free", "SFree"), ("no_recheck_queue", "SQueue"), ("recycle_wrong_mutex", "SRecycle"), ("recycle_before_clear", "SClear"))]
+
+
 ASSUME = ["TLC and the CommunityModules JSON reader are correct",
           "harness/vsched.h serialises the real code at every mutex / atomic / condition-variable operation and at the EVENTPP_VERIF_POINT markers; "
           "behaviour that needs weaker-than-sequentially-consistent memory is not explored",
@@ -79,11 +89,14 @@ def c06(tier, seed):
     sc3 = ["nq,nq|nq|pa,pa", "nq,nq|po,po|pa", "nq,nq,nq|pi|pu", "nq,nq|tk|pa", "nq,nq|cl|po,po", "nq|nq,pa|pi,pa"]
     scen = [{"scenario": s} for s in sc2] + [{"scenario": s, "max": 2500 if quick else 80000} for s in sc3]
     scen += cq_generated("C06", tier, seed, set(x["scenario"] for x in scen))
-    models = [{"module": "ConcQueueMC", "tag": "2threads", "cfg": mc_cfg([1, 2], "Scen2")}]
+    models = [{"module": "ConcQueueMC", "tag": "2threads", "cfg": mc_cfg([1, 2], "Scen2")},
+              # the slot protocol ConcQueue abstracts away: queueList / freeList / private lists, double-checked pops, clear before recycle
+              {"module": "ConcSlotsMC", "tag": "slots-2threads", "cfg": slots_cfg([1, 2], "S2")}]
     if not quick:
         models.append({"module": "ConcQueueMC", "tag": "3threads", "cfg": mc_cfg([1, 2, 3], "Scen3"), "heap": "16g"})
+        models.append({"module": "ConcSlotsMC", "tag": "slots-3threads", "cfg": slots_cfg([1, 2, 3], "S3", maxslots=5), "heap": "24g", "timeout": 3600})
     stress_sc = [{"scenario": s} for s in ["nq,nq|pa,pa", "nq,nq,nq|pi,pa", "nq,nq|tk|po,po", "nq,nq|cl|pa", "nq,nq,nq,nq|pu,pa", "nq|nq,tk|pa,pk", "nq,nq,nq|po,pi|pa"]]
-    return {"models": models, "runner": RUNNER_CQ, "trace_module": "TraceCQ", "scenarios": scen, "corpus": [CORPUS_PB], "extra_runners": [RUNNER_HQ],
+    return {"models": models, "runner": RUNNER_CQ, "trace_module": "TraceCQ", "scenarios": scen, "corpus": [CORPUS_PB], "extra_runners": [RUNNER_HQ], "model_defects": SLOT_DEFECTS,
             "stress_runners": STRESS_CQ, "stress_scenarios": stress_sc,
             "rule": "ConcQueue.tla model-checked over all interleavings of the scenario sets; on the real EventQueue each scenario (producers x consumers "
                     "process/processOne/processIf/processUntil/takeEvent/peekEvent/clearEvents) is explored by depth-first schedule enumeration with a "
@@ -150,6 +163,11 @@ RUNNERS_CC = [{"source": "cc_run.cpp", "name": "cc_run_list", "defines": ["W_OBJ
               {"source": "cc_run.cpp", "name": "cc_run_umap", "defines": ["W_OBJ=2"]}]
 
 
+# the heterogeneous classes under the controlled scheduler: the per-prototype slot is created lazily by whichever thread comes first
+RUNNERS_HC = [{"source": "cc_run.cpp", "name": "cc_run_hlist", "defines": ["W_OBJ=3"], "lacks_kinds": ["o", "x", "y", "z"]},
+              {"source": "cc_run.cpp", "name": "cc_run_hdisp", "defines": ["W_OBJ=4"], "lacks_kinds": ["o"]}]
+
+
 STRESS_CC = [{"source": "cc_stress.cpp", "name": "cc_stress_list_mutex", "defines": ["W_OBJ=0", "W_MUTEX=0"]},
              {"source": "cc_stress.cpp", "name": "cc_stress_list_spin", "defines": ["W_OBJ=0", "W_MUTEX=1"]},
              {"source": "cc_stress.cpp", "name": "cc_stress_umap_mutex", "defines": ["W_OBJ=2", "W_MUTEX=0"]},
@@ -205,6 +223,9 @@ def c03(tier, seed):
     for i, s in enumerate(["2:x,a|x,r1", "2:x,y,v|x,z,i1", "1:x,z|v,x|r1,x", "2:i1,x|x,y,r2"]):
         scen.append({"scenario": s, "bound": 2 if s.count("|") == 1 else 1, "max": 4000 if quick else 100000, "runner": 1 + i % 2})
     scen += cc_generated(tier, seed, set(x["scenario"] for x in scen))
+    # heterogeneous list / dispatcher only: first use of a prototype slot (and of an event) by several threads at once
+    for s in ["0:a|a", "0:a,v|a,v", "0:a|v,e", "0:p|a,r20", "0:a|f", "0:a,r10|a|v", "0:i1|a|p", "1:a|r1,a"]:
+        scen.append({"scenario": s, "bound": 3 if s.count("|") == 1 else 2, "max": 3000 if quick else 60000, "extra_only": True})
     models = [{"module": "ConcCLMC", "tag": "2threads", "cfg": cc_cfg([1, 2], "ScenSet")},
               # the SpinLock policy mutex refines the `mtx` abstraction the other models use
               {"module": "SpinLock", "tag": "spinlock", "cfg": sl_cfg([1, 2, 3], 2 if quick else 3)}]
@@ -216,7 +237,7 @@ def c03(tier, seed):
     stress_sc += [{"scenario": "4:300", "own": True, "count": 40 if quick else 400}, {"scenario": "8:100", "own": True, "count": 40 if quick else 400},
                   {"scenario": "3:1000", "own": True, "count": 10 if quick else 100}]
     stress_sc += [{"scenario": "0:a,a,r10,r11,a,r14|a,a,r20,r21,a,r24|a,e,p,o30,v|f,a,r40,e", "every": 2, "count": 100 if quick else 2000}]
-    return {"models": models, "runners": RUNNERS_CC, "trace_module": "TraceCC", "scenarios": scen,
+    return {"models": models, "runners": RUNNERS_CC, "extra_runners": RUNNERS_HC, "extra_every": 3, "trace_module": "TraceCC", "scenarios": scen,
             "stress_runners": STRESS_CC, "stress_scenarios": stress_sc,
             "inductive": [{"module": "SpinLockInd", "steps": [("IndInit", "IndInv", 0), ("IndInv", "IndInv", 1), ("IndInv", "MutualExclusion", 0)]}],
             "corpus": [], "model_defects": [{"module": "SpinLock", "cfg": sl_cfg([1, 2, 3], 2, defects=["cas_stale"]), "defect": "cas_stale"}],
